@@ -6,14 +6,15 @@ Stub: scripted fragmenting peers for the AVDTP fault cases and for AVCTP (writte
 """
 from __future__ import annotations
 
+import asyncio
 import struct
 
 from bsim.sim import PROFILE_NAMES, HarnessError, Sim, World, describe_task, result
 
 PROPERTY = 'C19'
 PLAN = {
-    'quick': [('sdp', 1100), ('avdtp_frag', 900), ('avctp_frag', 700), ('streams', 500)],
-    'thorough': [('sdp', 40000), ('avdtp_frag', 30000), ('avctp_frag', 20000), ('streams', 20000)],
+    'quick': [('sdp', 1100), ('avdtp_frag', 900), ('avctp_frag', 700), ('streams', 500), ('slow_acceptor', 300)],
+    'thorough': [('sdp', 40000), ('avdtp_frag', 30000), ('avctp_frag', 20000), ('streams', 20000), ('slow_acceptor', 10000)],
 }
 WALL_CAP = {'quick': 150, 'thorough': 1500}
 EVIDENCE = {
@@ -581,5 +582,74 @@ def run_streams(case):
         sim.close()
 
 
-SCENARIOS = {'sdp': (gen_sdp, run_sdp), 'avdtp_frag': (gen_avdtp_frag, run_avdtp_frag), 'avctp_frag': (gen_avctp_frag, run_avctp_frag),
+# ====================================================================================== AVDTP: a slow acceptor and many transactions overtaking it
+def gen_slow(rng, tier, seed):
+    return {'n': rng.choice([0, 1, 5, 14, 15, 16, 17, 20, 33, 40]), 'delay': rng.choice([0.5, 2.0, 10.0]), 'slow_first': rng.random() < 0.8,
+            'profile': rng.choice(PROFILE_NAMES)}
+
+
+def run_slow(case):
+    """One transaction is answered late by the acceptor while n later transactions on the same signalling channel complete."""
+    from bumble import a2dp, avdtp
+
+    sim = Sim(case['seed'], case.get('profile', 'zero'), slow_node='N1')
+    try:
+        world = _classic_world(sim, 2)
+        servers = []
+        listener = avdtp.Listener.for_device(world[1].device)
+
+        def on_connection(server):
+            server.add_sink(_codec(a2dp, avdtp, False))
+            servers.append(server)
+            real = server.on_get_all_capabilities_command
+            real2 = server.on_get_capabilities_command
+
+            async def slow_all(command):
+                await asyncio.sleep(case['delay'])
+                return await real(command)
+
+            async def slow_one(command):
+                await asyncio.sleep(case['delay'])
+                return await real2(command)
+            server.on_get_all_capabilities_command = slow_all
+            server.on_get_capabilities_command = slow_one
+        listener.on('connection', on_connection)
+        c0, c1 = _classic_connect(sim, world, 0, 1)
+        client = sim.must(avdtp.Protocol.connect(c0), 'avdtp connect')
+        sim.loop.settle()
+        seid = 1
+        base = sim.must(client.discover_remote_endpoints(), 'discover')
+        want = sorted(e.seid for e in base)
+        if not want:
+            raise HarnessError('no endpoint')
+        seid = want[0]
+        slow = sim.loop.create_task(client.get_capabilities(seid))
+        sim.loop.settle(vt_budget=0.2)
+        quick_ok = 0
+        for i in range(case['n']):
+            # a plain Discover transaction (not slowed down by the acceptor)
+            st, t = sim.run(client.send_command(avdtp.Discover_Command()), 30.0)
+            if st != 'done' or t.exception() is not None or sorted(e.seid for e in getattr(t.result(), 'endpoints', [])) != want:
+                why = st if st != 'done' else (type(t.exception()).__name__ if t.exception() else 'wrong-result')
+                sim.violation_once('overtake', f'avdtp:transaction-behind-a-slow-one-failed:{why}', f'discover #{i + 1} of {case["n"]} while Get Capabilities is pending: {why}')
+                if not t.done():
+                    t.cancel()
+                break
+            quick_ok += 1
+        if quick_ok >= 16:
+            sim.probe('sixteen_transactions_overtook_a_pending_one')
+        sim.loop.drive(slow.done, vt_budget=case['delay'] + 40.0, step_budget=400_000)
+        if not slow.done():
+            sim.violation_once('slow', f'avdtp:late-response-never-delivered:overtaken-by={"ge16" if quick_ok >= 16 else "lt16"}',
+                               f'Get Capabilities answered after {case["delay"]} s and {quick_ok} other transactions: the caller never got the response')
+            slow.cancel()
+        elif slow.exception() is not None:
+            sim.violation_once('slow', f'avdtp:late-response-failed:{type(slow.exception()).__name__}', repr(slow.exception()))
+        sim.trace.shape(min(case['n'], 17), case['delay'])
+        return result(sim, nontrivial=quick_ok > 0)
+    finally:
+        sim.close()
+
+
+SCENARIOS = {'slow_acceptor': (gen_slow, run_slow), 'sdp': (gen_sdp, run_sdp), 'avdtp_frag': (gen_avdtp_frag, run_avdtp_frag), 'avctp_frag': (gen_avctp_frag, run_avctp_frag),
              'streams': (gen_streams, run_streams)}
